@@ -17,7 +17,8 @@ RULE = ('to_tough2: generated AUTOUGH2 models (gens/data.py: every section combi
         'drawn rock assignments, boundary blocks of huge / zero volume, generators of Waiwera-supported types incl. TMAK groups, '
         'every supported EOS name given explicitly, through MULTI, or through the simulator string only. '
         'Non-trivial = the model has a generator that must be converted or deleted, a MOP digit that triggers rescaling, '
-        'or short/history output; for export: a boundary block or a source outside the first cell. distinct = case JSON.')
+        'or short/history output; for export: a boundary block or a source outside the first cell. distinct = case JSON.'
+        ' Also: MULTI with a blank / None EOS entry; history lists of kinds SHORT does not mention set before the conversion; half of the export cases export the model re-read from its data file.')
 ASSUMPTIONS = ['an AUTOUGH2 model carries its history requests as SHORT output and a TOUGH2 model as FOFT/COFT/GOFT (models mixing both are not generated)',
                'the documented conductivity rescaling is judged only when exactly one of the two MOP conditions (MOP(10)=2; MOP(23)>0 with a '
                'pre-AUTOUGH2.2 or MULKOM simulator) holds; when both hold the case is counted, not judged',
@@ -62,7 +63,8 @@ def export_case():
                          'gx': draw(st.sampled_from([-5.0, 2.5, 0.0, 1e3])), 'table': draw(st.booleans())})
         return {'k': 'export', 'rc': rc, 'eos': eosname, 'eos_via': draw(st.sampled_from(['argument', 'multi', 'simulator', 'simulator+multi', 'simulator+multi-blank-eos', 'simulator+multi-none-eos', 'multi-padded'])),
                 'rocks': draw(st.lists(st.integers(0, 2), min_size=1, max_size=12)),
-                'boundary': draw(st.lists(st.tuples(st.integers(0, 400), st.sampled_from(['zero', 'huge'])), max_size=3)),
+                'boundary': draw(st.lists(st.tuples(st.integers(0, 400), st.sampled_from(['zero', 'huge', 'large'])), max_size=3)),
+                'atmos_volume': draw(st.sampled_from([1e25, 1e25, 1e20])),
                 'gens': gens, 'via_file': draw(st.booleans())}
     return s()
 
@@ -248,7 +250,9 @@ def run_export(case, R):
     und = d.grid.blocklist[natm:]
     for i, b in enumerate(und): b.rocktype = rocks[case['rocks'][i % len(case['rocks'])]]
     for i, kind in case['boundary']:
-        if und: und[i % len(und)].volume = 0.0 if kind == 'zero' else 1e30
+        if und: und[i % len(und)].volume = 0.0 if kind == 'zero' else 1e22 if kind == 'large' else 1e30
+    av = float(case.get('atmos_volume', 1e25))      # the documented threshold argument: blocks at or above it are boundary blocks
+    R.label('atmos_volume:%g' % av)
     if case.get('via_file'):
         # the model as a user gets it from a data file (blocks carry no in-memory atmosphere flag there)
         fn = os.path.join(R.tmp, 'export.dat')
@@ -277,9 +281,9 @@ def run_export(case, R):
     R.check(ej.get('eos', {}).get('name') == SUPPORTED_EOS[eos], 'export:eos-name', 'eos %r gives %r, expected %r' % (eos, ej, SUPPORTED_EOS[eos]))
     # rocks partition
     with R.lib('rocks_json'):
-        rj = d.rocks_json(g, 1.e25, 'xyz')
+        rj = d.rocks_json(g, av, 'xyz')
     cells = [c for t in rj['rock']['types'] for c in t['cells']]
-    expected = [i - natm for i, n in enumerate(g.block_name_list) if i >= natm and 0. < d.grid.block[n].volume < 1e25]
+    expected = [i - natm for i, n in enumerate(g.block_name_list) if i >= natm and 0. < d.grid.block[n].volume < av]
     R.check(sorted(cells) == sorted(expected) and len(set(cells)) == len(cells), 'export:rock-cells-partition',
             'cells %r..., expected exactly the non-boundary blocks %r...' % (sorted(cells)[:6], sorted(expected)[:6]))
     for t in rj['rock']['types']:
